@@ -166,6 +166,13 @@ Why(exp, got) ==
   \cup {<<"duplicate-row", r.f.fam, r.f.type>> : r \in Duplicated(exp, got)}
   \cup {<<"missing-row", g.f.fam, g.f.type>> : g \in Unmet(exp, got)}
 
+\* the clauses that no defect shape explains away (all of them when every one
+\* is explained by some shape but the answer as a whole by none)
+WhyCore(i, got) ==
+  LET all  == Why(F(i), got)
+      core == {t \in all : \A a \in Alts(i) : t \in Why(a.out, got)}
+  IN IF core = {} THEN all ELSE core
+
 \* {} when the answer conforms; otherwise the smallest sets of shapes that
 \* explain it, or {{"other"}}
 Verdict(i, got) ==
